@@ -253,8 +253,12 @@ def render_tiger_s(T, sid, rnd):
     for i in sorted([i for i, x in enumerate(nodes) if x['tok']], key=lambda i: nodes[i]['y'][0]):
         a = nodes[i]['a']
         # lemma and morph are optional attributes: absent (['~~'] = None) means the attribute is not written
-        out.append('<t %s />' % attrs([('id', ident[i]), ('word', un(a['word'])), ('pos', un(a['lab']))] +
-                                      [(k_, un(a[k_])) for k_ in ('lemma', 'morph') if a[k_] != ['~~']]))
+        tattrs = attrs([('id', ident[i]), ('word', un(a['word'])), ('pos', un(a['lab']))] +
+                       [(k_, un(a[k_])) for k_ in ('lemma', 'morph') if a[k_] != ['~~']])
+        if rnd.random() < 0.15:      # secondary edges are no part of the tree
+            out.append('<t %s><secedge label="SB" idref="%s" /></t>' % (tattrs, ident[rnd.randrange(len(nodes))]))
+        else:
+            out.append('<t %s />' % tattrs)
     out.append('</terminals>')
     out.append('<nonterminals>')
     nts = [i for i, x in enumerate(nodes) if not x['tok']]
@@ -263,8 +267,13 @@ def render_tiger_s(T, sid, rnd):
         out.append('<nt %s>' % attrs([('id', ident[i]), ('cat', un(nodes[i]['a']['lab']))]))
         ks = list(kids[i])
         rnd.shuffle(ks)
+        sec = rnd.random() < 0.25
+        if sec and rnd.random() < 0.5:
+            out.append('<secedge label="OA" idref="%s" />' % ident[rnd.randrange(len(nodes))])
         for k in ks:
             out.append('<edge %s />' % attrs([('label', un(nodes[k]['a']['edge'])), ('idref', ident[k])]))
+        if sec:
+            out.append('<secedge label="SB" idref="%s" />' % ident[rnd.randrange(len(nodes))])
         out.append('</nt>')
     out += ['</nonterminals>', '</graph>', '</s>']
     return '\n'.join(out) + '\n'
